@@ -834,4 +834,90 @@ theorem reader_reports_eos (steps : List RStep) (cap : Nat) (hcap : 0 < cap)
       simp [pollRead, hc, hf, h1.rsReset, hfill, execRead]
     simp [Reader.step, this, Reader.apply]
 
+/-! ## `read_to_end`: buffer assembly -/
+
+theorem foldl_min_le (l : List (Nat × Bytes)) : ∀ m, l.foldl (fun m c => min m c.1) m ≤ m := by
+  induction l with
+  | nil => intro m; exact Nat.le_refl _
+  | cons c r ih => intro m; exact Nat.le_trans (ih _) (Nat.min_le_left _ _)
+
+theorem foldl_min_withOffsets (parts : List Bytes) : ∀ off m, m ≤ off →
+    (withOffsets off parts).foldl (fun m c => min m c.1) m = m := by
+  induction parts with
+  | nil => intro off m _; rfl
+  | cons b bs ih =>
+    intro off m h
+    simp only [withOffsets, List.foldl_cons]
+    have : min m off = m := Nat.min_eq_left h
+    rw [this]
+    exact ih _ _ (by omega)
+
+theorem foldl_max_withOffsets (parts : List Bytes) : ∀ off m, m ≤ off →
+    (withOffsets off parts).foldl (fun m c => max m (c.1 + c.2.length)) m
+      = if parts = [] then m else off + parts.flatten.length := by
+  induction parts with
+  | nil => intro off m _; rfl
+  | cons b bs ih =>
+    intro off m h
+    simp only [withOffsets, List.foldl_cons]
+    have hm : max m (off + b.length) = off + b.length := by omega
+    rw [hm, ih (off + b.length) (off + b.length) (Nat.le_refl _)]
+    by_cases hb : bs = []
+    · subst hb; simp
+    · simp [hb]; omega
+
+theorem placeAt_prefix (p z b : Bytes) (_hz : b.length ≤ z.length) :
+    placeAt (p ++ z) p.length b = p ++ b ++ z.drop b.length := by
+  unfold placeAt
+  rw [List.take_left' rfl]
+  congr 1
+  rw [List.drop_append]
+  simp [List.drop_eq_nil_of_le]
+
+theorem fold_place (parts : List Bytes) : ∀ (start off : Nat) (p : Bytes) (n : Nat),
+    off = start + p.length → parts.flatten.length ≤ n →
+    (withOffsets off parts).foldl (fun buf c => placeAt buf (c.1 - start) c.2) (p ++ List.replicate n 0)
+      = p ++ parts.flatten ++ List.replicate (n - parts.flatten.length) 0 := by
+  induction parts with
+  | nil => intro start off p n _ _; simp [withOffsets]
+  | cons b bs ih =>
+    intro start off p n hoff hn
+    simp only [withOffsets, List.foldl_cons]
+    have h1 : off - start = p.length := by omega
+    simp only [List.flatten_cons, List.length_append] at hn
+    rw [h1, placeAt_prefix p (List.replicate n 0) b (by simp; omega)]
+    have hd : (List.replicate n (0 : UInt8)).drop b.length = List.replicate (n - b.length) 0 := by
+      simp
+    rw [hd, ih start (off + b.length) (p ++ b) (n - b.length) (by simp; omega) (by omega)]
+    simp only [List.flatten_cons, List.length_append, List.append_assoc]
+    have : n - b.length - bs.flatten.length = n - (b.length + bs.flatten.length) := by omega
+    rw [this]
+
+theorem assemble_in_order (parts : List Bytes) (off : Nat) (hoff : off + parts.flatten.length < 2 ^ 64 - 1) :
+    assemble (withOffsets off parts) = parts.flatten := by
+  unfold assemble
+  simp only
+  rw [foldl_max_withOffsets parts off 0 (Nat.zero_le _)]
+  by_cases hp : parts = []
+  · subst hp; simp [withOffsets]
+  · have hstart : (withOffsets off parts).foldl (fun m c => min m c.1) (2 ^ 64 - 1) = off := by
+      cases parts with
+      | nil => exact absurd rfl hp
+      | cons b bs =>
+        simp only [withOffsets, List.foldl_cons]
+        have : min (2 ^ 64 - 1) off = off := by omega
+        rw [this]
+        exact foldl_min_withOffsets bs _ _ (by omega)
+    rw [hstart]
+    simp only [hp, if_false]
+    by_cases hz : parts.flatten.length = 0
+    · have : parts.flatten = [] := List.eq_nil_of_length_eq_zero hz
+      simp [this]
+    · have hc : ¬ (off = 2 ^ 64 - 1 ∨ off ≥ off + parts.flatten.length) := by omega
+      rw [if_neg hc]
+      have := fold_place parts off off [] (off + parts.flatten.length - off) (by simp) (by omega)
+      simp only [List.nil_append] at this
+      rw [this]
+      simp
+
 end Compio.QuicWakers
